@@ -4745,8 +4745,21 @@ class ResponseFuture(object):
         self._start_timer()
         self.send_request()
 
+    def _submit(self, fn, *args, **kwargs):
+        """
+        Hands follow-up work of this request (retry, re-prepare) to the session's
+        executor.  A session that has been shut down refuses it (Session.submit
+        runs nothing and returns None); the request can make no further progress
+        then, so it is failed here instead of being left pending for ever.
+        """
+        task = self.session.submit(fn, *args, **kwargs)
+        if task is None:
+            self._set_final_exception(ConnectionShutdown(
+                "Session is shut down; the request cannot be completed"))
+        return task
+
     def _reprepare(self, prepare_message, host, connection, pool):
-        cb = partial(self.session.submit, self._execute_after_prepare, host, connection, pool)
+        cb = partial(self._submit, self._execute_after_prepare, host, connection, pool)
         request_id = self._query(host, prepare_message, cb=cb)
         if request_id is None:
             # try to submit the original prepared statement on some other host
@@ -4793,10 +4806,13 @@ class ResponseFuture(object):
                     # refresh the schema before responding, but do it in another
                     # thread instead of the event loop thread
                     self.is_schema_agreed = False
-                    self.session.submit(
-                        refresh_schema_and_set_result,
-                        self.session.cluster.control_connection,
-                        self, connection, **response.schema_change_event)
+                    if self.session.submit(
+                            refresh_schema_and_set_result,
+                            self.session.cluster.control_connection,
+                            self, connection, **response.schema_change_event) is None:
+                        # the session has been shut down and runs no task any more:
+                        # the statement itself succeeded, deliver its result now
+                        self._set_final_result(None)
                 elif response.kind == RESULT_KIND_ROWS:
                     page_info = (response.paging_state, response.column_names, response.column_types)
                     if getattr(self.message, 'continuous_paging_options', None):
@@ -4880,7 +4896,7 @@ class ResponseFuture(object):
                                                      keyspace=prepared_keyspace)
                     # since this might block, run on the executor to avoid hanging
                     # the event loop thread
-                    self.session.submit(self._reprepare, prepare_message, host, connection, pool)
+                    self._submit(self._reprepare, prepare_message, host, connection, pool)
                     return
                 else:
                     if hasattr(response, 'to_exception'):
@@ -5073,7 +5089,7 @@ class ResponseFuture(object):
             self.message.consistency_level = consistency_level
 
         # don't retry on the event loop thread
-        self.session.submit(self._retry_task, reuse_connection, host)
+        self._submit(self._retry_task, reuse_connection, host)
 
     def _retry_task(self, reuse_connection, host):
         if self._final_exception:
